@@ -1801,3 +1801,14 @@ for _pid in ("C08", "C09"):
     V("%s-deferred-orientation" % _pid.lower(), _pid, "undecided", UT, "    G = only_directed(P)\n    indexes = list(range(len(P)))", "    G = only_directed(P)\n    oriented = []\n    indexes = list(range(len(P)))",
       more=[(UT, _ORI, "                oriented += [(indexes[j], indexes[i]) for j in n_i]\n"), (UT, "            raise ValueError(\"PDAG %s does not admit consistent extension\" % oP)\n    return G", "            raise ValueError(\"PDAG %s does not admit consistent extension\" % oP)\n    for (tail, head) in oriented:\n        G[tail, head] = 1\n    return G")],
       what="orientations collected during the search and written afterwards: another form")
+
+# ------------------------------------------------------------------------------- round 12 inspired (C11: relabelling drawn with replacement)
+V("c11-relabel-with-replacement", "C11", "fire", GE, "    permutation = rng.permutation(p)\n    # Note the actual topological ordering is the \"conjugate\" of permutation eg. [3,1,2] -> [2,3,1]\n    print(", "    permutation = rng.choice(p, size=p)\n    # Note the actual topological ordering is the \"conjugate\" of permutation eg. [3,1,2] -> [2,3,1]\n    print(", rule="PERM.random", what="labels drawn with replacement")
+V("c11-relabel-choice-without-replacement", "C11", "undecided", GE, "    permutation = rng.permutation(p)\n    # Note the actual topological ordering is the \"conjugate\" of permutation eg. [3,1,2] -> [2,3,1]\n    print(", "    permutation = rng.choice(p, size=p, replace=False)\n    # Note the actual topological ordering is the \"conjugate\" of permutation eg. [3,1,2] -> [2,3,1]\n    print(", what="a permutation drawn through choice(replace=False): another form")
+
+# ------------------------------------------------------------------------------- round 12 inspired (C09 / C10: one orienting branch does not raise the pass flag) - silent on first contact
+for _pid in ("C09", "C10"):
+    V("%s-meek-flag-missing-in-branch" % _pid.lower(), _pid, "fire", UT, "            elif rule_1(j, i, P) or rule_2(j, i, P) or rule_3(j, i, P) or rule_4(j, i, P):\n                oriented_edges = True\n",
+      "            elif rule_1(j, i, P) or rule_2(j, i, P) or rule_3(j, i, P) or rule_4(j, i, P):\n", rule="ORIENT.flag", what="a pass that only orients j -> i edges ends the loop")
+    V("%s-silent-meek-flag-after-branches" % _pid.lower(), _pid, "undecided", UT, "            elif rule_1(j, i, P) or rule_2(j, i, P) or rule_3(j, i, P) or rule_4(j, i, P):\n                oriented_edges = True\n",
+      "            elif rule_1(j, i, P) or rule_2(j, i, P) or rule_3(j, i, P) or rule_4(j, i, P):\n                oriented_edges = oriented_edges or True\n", what="flag raised by an or-update")
